@@ -62,6 +62,20 @@ def catalogue():
                            "o": {"default": D(("d", 1)), "default_callable": True}}, [D(("k", 1)), D((" K ", "2"))], [D(("k", "x")), [1]])
     c["int-cd"] = ({"k": "Int", "o": {"default": 3, "default_callable": True}}, [1, "2"], ["x"])
     c["challenge-dflt"] = ({"k": "Challenge", "o": {"hash_algorithm": "sha1", "default": "dfl-secret"}}, ["pw", "pw2"], [5])
+    c["secure-aes"] = ({"k": "Secure", "o": {"method": "aes"}}, ["s3cret-ZQ", "p\u00e4ss w\u00f6rd"], [])
+    c["secure-xor"] = ({"k": "Secure", "o": {"method": "xor", "default": "dflt-secret"}}, ["s3cret-ZQ", ""], [])
+    c["secure-best"] = ({"k": "Secure"}, ["s3cret-ZQ", "x" * 40], [])
+    c["bytes-hex"] = ({"k": "Bytes", "o": {"encoding": "hex", "default": Y(b"\x00\xff")}}, [Y(b"ab"), Y(bytes(range(7)))], [5])
+    c["float-precise"] = ({"k": "Float", "o": {"default": F(0.1 + 0.2)}}, [F(1234567.891), F(1e-7), F(123456789012345680.0)], ["x"])
+    c["int-big"] = ({"k": "Int"}, [2 ** 40, -(2 ** 62), 0], ["x"])
+    c["str-tricky"] = ({"k": "Str", "o": {"default": " padded "}}, ["true", "1.0", "", "<&>\"'\n\ttab", "\u00e9\U0001F600", "null", "]]>", " "], [5])
+    c["list-bytes"] = ({"k": "List", "item": {"k": "Bytes"}}, [[Y(b"ab"), Y(b"\xff")], []], [[5]])
+    c["list-challenge"] = ({"k": "List", "item": {"k": "Challenge", "o": {"hash_algorithm": "sha1"}}}, [["pw1", "pw2"]], [[5]])
+    c["list-secure"] = ({"k": "List", "item": {"k": "Secure", "o": {"method": "xor"}}}, [["sec-1", "sec-2"]], [])
+    c["dict-bytes"] = ({"k": "Dict", "key": {"k": "Str"}, "val": {"k": "Bytes", "o": {"encoding": "hex"}}}, [D(("k", Y(b"ab")))], [D(("k", 5))])
+    c["dict-secure"] = ({"k": "Dict", "key": {"k": "Str"}, "val": {"k": "Secure", "o": {"method": "aes"}}}, [D(("k", "sec-d"))], [])
+    c["dict-challenge"] = ({"k": "Dict", "key": {"k": "Str"}, "val": {"k": "Challenge"}}, [D(("k", "pw-d"))], [D(("k", 5))])
+    c["list-list"] = ({"k": "List", "o": {"default": [[1], []]}}, [[[1, [2]], D(("a", [None]))], [[1.5, "s"]]], ["x"])
     c["dict-any-dflt"] = ({"k": "Dict", "o": {"default": D(("d", 1))}}, [D(("k", 1))], ["x"])
     c["list-any-dflt"] = ({"k": "List", "o": {"default": [1, [2]]}}, [[3]], ["x"])
     return c
@@ -134,6 +148,11 @@ class Built:
         return s
 
     def _leaf(self, f):
+        import cincoconfig as cc
+        if f["k"] == "Virtual":
+            return cc.VirtualField(lambda cfg: 42)
+        if f["k"] == "Method":
+            return cc.InstanceMethodField(lambda cfg, n=1: n + 1)
         o = f.get("o", {})
         if o.get("default_callable"):
             ff = {"k": f["k"], "o": {a: b for a, b in o.items() if a not in ("default", "default_callable")}}
@@ -303,6 +322,8 @@ def invalid_values(cfg, spec, pre=""):
             out.append((path, None, "reading raised %r" % (exc,)))
             continue
         k = f["k"]
+        if k in ("Virtual", "Method"):
+            continue
         if k in ("Schema", "CType"):
             if isinstance(value, cc.Config):
                 out += invalid_values(value, f, path + ".")
